@@ -209,21 +209,14 @@ func c14Fix(c *ctx) {
 		lines = strings.Split(strings.TrimSpace(string(b)), "\n")
 	}
 	c.header = nil
-	if c.maxLines <= 0 {
-		c.maxLines = 1 << 30
-	}
+	c.manualRotate = true
 	for i, ln := range lines {
 		if !c.mine(i) || ln == "" {
 			continue
 		}
 		HolidayUtil.VerifReset()
 		parts := strings.Split(ln, "|")
-		if c.lines%c.maxLines > c.maxLines-40 || c.lines == 0 {
-			// a sequence never straddles two chunks: start a new chunk (its header reloads the table)
-			for c.lines%c.maxLines != 0 {
-				c.lines++
-			}
-		}
+		c.rotateIfDue() // a sequence never straddles two chunks
 		emitTable(c, "reset")
 		for k, call := range parts {
 			data := ""
